@@ -2,6 +2,7 @@ import MsiProofs.Props.C08
 import MsiProofs.Lemmas.RefineExact
 import MsiProofs.Lemmas.GlobalInv
 import MsiProofs.Lemmas.GlobalInvUpd
+import MsiProofs.Lemmas.SortUpd
 /-
 C08, as an invariant of the operations — reference counts stay exact.  `AccountedWith slack p cells`:
 for every pool entry, (number of cells referring to it) + slack = its reference count.  Insert and
@@ -42,5 +43,40 @@ def delete_inv := @MsiProofs.GlobalInv.delete_inv
 and deletes -/
 def update_inv := @MsiProofs.GlobalInvUpd.update_inv
 def dml_history_inv := @MsiProofs.GlobalInvUpd.history_inv
+
+
+/-! ### non-vacuity: a state that satisfies the invariant, and requests that succeed on it -/
+open MsiProofs.GlobalInv MsiProofs.SortedInv MsiProofs.RowsOk in
+section
+def tT : Table := ⟨['T'], [{ name := ['K'], coltype := .int16, isPrimaryKey := true },
+                          { name := ['S'], coltype := .str 8, isNullable := true }], false⟩
+def s0 : Pkg := ⟨0, [], default, false, Pool.new 0, [tT], false⟩
+
+theorem s0_inv : Inv (fun _ => 0) s0 where
+  distinct := by simp [s0]
+  loads := by intro t ht; simp [s0] at ht; subst ht; exact ⟨[], rfl⟩
+  pos := by intro r hr; simp [cellsOfTables, rowsOf, s0, Pkg.loadRows, Cont.find] at hr
+  counts := by intro r _; simp [cellsOfTables, rowsOf, s0, Pkg.loadRows, Cont.find, Pool.new, Pool.refcount]
+  sized := by simp [PoolSized, s0, Pool.new]
+  widths := by intro t ht; simp [s0] at ht; subst ht; exact ⟨rfl, by decide⟩
+
+theorem s0_sorted : SortedAll s0 := by
+  intro t ht rows h
+  simp [s0] at ht; subst ht
+  simp [s0, Pkg.loadRows, Cont.find, pure] at h
+  subst h
+  simp [KeysAscending]
+
+
+/-- an insert into this state succeeds, and reads back in key order ("b" interned as entry 1) -/
+example : (insertExec s0 ['T'] [[.int 2, .str ['b']], [.int 1, .null]]).2 = .ok () := by decide
+example : (insertExec s0 ['T'] [[.int 2, .str ['b']], [.int 1, .null]]).1.loadRows tT =
+    .ok [[.int 1, .null], [.int 2, .str 1]] := by decide
+/-- so the history theorems apply to it: after ANY requests the invariant and the key order hold -/
+example (ops : List MsiProofs.GlobalInvUpd.Op) :
+    Inv (fun _ => 0) (ops.foldl MsiProofs.GlobalInvUpd.Op.run s0) ∧
+    SortedAll (ops.foldl MsiProofs.GlobalInvUpd.Op.run s0) :=
+  MsiProofs.SortUpd.history_sorted _ ops s0 s0_inv s0_sorted
+end
 
 end MsiProofs.C08
